@@ -36,7 +36,18 @@ CONSTANTS
     Shapes,         \* subset of {"default", "first", "last"}: redemption change position; "default" =
                     \* the configuration of the production action (newRedemptionAction: ChangeFirst)
     DepKindPatterns,\* sequences (length MaxK) of deposit funding-output kinds
-    LabelPatterns   \* sequences (length MaxK) of redeemer-script / target-wallet labels
+    LabelPatterns,  \* sequences (length MaxK) of redeemer-script / target-wallet labels
+    \* ---- proposal resolution (the step the wallet actions perform before assembling)
+    PropOutputs,    \* potential deposit outputs <<funding transaction, output index>>
+    PropDepOptions, \* subset of DepOptions
+    PropMainVals,   \* main UTXO values of the redemption proposal scenarios
+    PropWrongAll,   \* TRUE: a wrong reveal block at any key position; FALSE: only at the last key
+    PropTxStates,   \* set of functions funding transaction -> {"ok", "unconfirmed", "unknown"}
+    PropMaxKeys,    \* max number of deposit keys / redeemer scripts in a proposal
+    PropScripts,    \* redeemer output scripts that may have a pending request
+    PropReqVals,    \* requested amounts of pending redemption requests
+    PropFees,       \* proposed fees of the proposal scenarios
+    PropShapes      \* change shapes of the redemption proposal scenarios
 
 \* kinds of the output a UTXO reference points at
 MainGood   == {"p2pkh", "p2wpkh"}          \* AddPublicKeyHashInput accepts
@@ -67,6 +78,43 @@ Inputs ==
     \cup [kind : {"redemption"}, main : Mains, items : RequestLists, fee : Fees, shape : Shapes]
     \cup [kind : {"movingFunds"}, main : Mains, items : TargetLists, fee : Fees, shape : {"default"}]
     \cup [kind : {"movedFundsSweep"}, main : Mains, items : MovedLists, fee : Fees, shape : {"default"}]
+
+---------------------------------------------------------------------------
+\* Proposals.  depositSweepAction.execute and redemptionAction.execute do not get the
+\* assembler arguments from the coordinator: the proposal only *names* deposits (funding
+\* transaction hash, output index, reveal block) and redemption requests (redeemer output
+\* script); ValidateDepositSweepProposal / ValidateRedemptionProposal look the named
+\* entries up on the host chain and the matched chain data becomes the assembler input.
+\*
+\* Deposit sweep proposal scenario:
+\*   dep[o]  what the Bridge knows about output o of a funding transaction:
+\*           "absent" not revealed; "b1"/"b2" revealed for this wallet in block 1 / 2;
+\*           "other" revealed in block 1 for another wallet; "noreq" revealed (block 1, this
+\*           wallet) but without a deposit request
+\*   txs[t]  state of funding transaction t on Bitcoin
+\*   keys    the proposal's deposit keys (distinct outputs); the proposal's reveal block of
+\*           key i is the true one, except for key `wrongAt` (0 = none) where it is the other block
+DepOptions == {"absent", "b1", "b2", "other", "noreq"}
+PropTxs == { o[1] : o \in PropOutputs }
+InjectiveSeqs(S, n) == { q \in [1..n -> S] : \A i, j \in 1..n : i # j => q[i] # q[j] }
+KeyLists == UNION { InjectiveSeqs(PropOutputs, n) : n \in 1..PropMaxKeys }
+PropMains == {NoMain, [kind |-> "p2wpkh", value |-> AnyMainVal]}
+SweepProposals ==
+    UNION { [kind : {"sweepProposal"}, main : PropMains, keys : {k}, wrongAt : IF PropWrongAll THEN 0..Len(k) ELSE {0, Len(k)},
+             dep : { d \in [PropOutputs -> PropDepOptions] : \A o \in PropOutputs : d[o] = "noreq" => o[2] = 0 },
+             txs : PropTxStates, fee : PropFees] : k \in KeyLists }
+
+\* Redemption proposal scenario:
+\*   pend[s]  the pending request of this wallet for redeemer script s, if any
+\*   foreign  another wallet has pending requests for the same scripts (other amounts)
+\*   scripts  the proposal's redeemer output scripts (distinct)
+PendOptions == {[p |-> FALSE, amount |-> 0, treasury |-> 0]} \cup [p : {TRUE}, amount : PropReqVals, treasury : TreasVals]
+ScriptLists == UNION { InjectiveSeqs(PropScripts, n) : n \in 1..PropMaxKeys }
+RedemptionProposals ==
+    [kind : {"redemptionProposal"}, main : [kind : {"p2wpkh"}, value : PropMainVals], scripts : ScriptLists,
+     pend : [PropScripts -> PendOptions], foreign : BOOLEAN, fee : PropFees, shape : PropShapes]
+
+ProposalInputs == SweepProposals \cup RedemptionProposals
 
 VARIABLES in, res, done
 vars == <<in, res, done>>
@@ -161,9 +209,50 @@ MovedFundsSweepResult(i) ==
         LET ins == <<1>> \o (IF HasMain(i) THEN <<0>> ELSE <<>>) IN
         Ok(ins, <<Out("wallet", InputsValue(i, ins) - i.fee)>>, <<>>)
 
+---------------------------------------------------------------------------
+\* ValidateDepositSweepProposal: for every deposit key, in proposal order: the funding
+\* transaction must be known and sufficiently confirmed; the DepositRevealed events of the
+\* wallet in the proposal's reveal block are fetched and the one with the key's funding
+\* transaction hash AND output index is taken; its deposit request must exist.  The matched
+\* events (outpoint, amount) are the deposits handed to assembleDepositSweepTransaction.
+PropValue(o) == 4 + 5 * o[2] + 700000 * (o[1] - 1)     \* amount of the deposit at output o
+TrueBlock(d) == IF d = "b2" THEN 2 ELSE 1
+ClaimedBlock(i, n) == LET b == TrueBlock(i.dep[i.keys[n]]) IN IF i.wrongAt = n THEN 3 - b ELSE b
+RevealedForWallet(i, o, b) == i.dep[o] \in {"b1", "b2", "noreq"} /\ TrueBlock(i.dep[o]) = b
+
+KeyError(i, n) ==
+    LET o == i.keys[n] IN
+    IF i.txs[o[1]] = "unknown" THEN "fundingConfirmations"
+    ELSE IF i.txs[o[1]] = "unconfirmed" THEN "fundingUnconfirmed"
+    ELSE IF ~RevealedForWallet(i, o, ClaimedBlock(i, n)) THEN "noEvent"
+    ELSE IF i.dep[o] = "noreq" THEN "noRequest"
+    ELSE ""
+
+\* the assembler arguments a valid proposal resolves to: deposit n is the UTXO named by key n
+ResolvedSweep(i) ==
+    [kind |-> "sweep", main |-> i.main, fee |-> i.fee, shape |-> "default",
+     items |-> [n \in 1..Len(i.keys) |-> Item(PropValue(i.keys[n]), 0, "p2wsh")]]
+
+SweepProposalResult(i) ==
+    LET bad == {n \in 1..Len(i.keys) : KeyError(i, n) # ""} IN
+    IF bad # {} THEN LET n == Min(bad) IN Err(KeyError(i, n), n - 1)
+    ELSE SweepResult(ResolvedSweep(i))
+
+\* ValidateRedemptionProposal: every redeemer script of the proposal must have a pending
+\* request of THIS wallet; the requests (amount, treasury fee) in proposal order are handed to
+\* assembleRedemptionTransaction.
+ResolvedRedemption(i) ==
+    [kind |-> "redemption", main |-> i.main, fee |-> i.fee, shape |-> i.shape,
+     items |-> [n \in 1..Len(i.scripts) |-> Item(i.pend[i.scripts[n]].amount, i.pend[i.scripts[n]].treasury, i.scripts[n])]]
+
+RedemptionProposalResult(i) ==
+    LET bad == {n \in 1..Len(i.scripts) : ~i.pend[i.scripts[n]].p} IN
+    IF bad # {} THEN Err("notPending", Min(bad) - 1)
+    ELSE RedemptionResult(ResolvedRedemption(i))
+
 Pending == [err |-> "pending", errIdx |-> 0 - 1, inputs |-> <<>>, outputs |-> <<>>, shares |-> <<>>]
 
-Init == in \in Inputs /\ res = Pending /\ done = FALSE
+Init == in \in (Inputs \cup ProposalInputs) /\ res = Pending /\ done = FALSE
 
 \* one action per assembler (each is a single call of the Go function)
 AssembleDepositSweep ==
@@ -179,10 +268,20 @@ AssembleMovedFundsSweep ==
     /\ ~done /\ in.kind = "movedFundsSweep"
     /\ res' = MovedFundsSweepResult(in) /\ done' = TRUE /\ UNCHANGED in
 
+\* the wallet actions: resolve the proposal against the chains, then assemble
+ExecuteDepositSweepProposal ==
+    /\ ~done /\ in.kind = "sweepProposal"
+    /\ res' = SweepProposalResult(in) /\ done' = TRUE /\ UNCHANGED in
+ExecuteRedemptionProposal ==
+    /\ ~done /\ in.kind = "redemptionProposal"
+    /\ res' = RedemptionProposalResult(in) /\ done' = TRUE /\ UNCHANGED in
+
 Next == \/ AssembleDepositSweep
         \/ AssembleRedemption
         \/ AssembleMovingFunds
         \/ AssembleMovedFundsSweep
+        \/ ExecuteDepositSweepProposal
+        \/ ExecuteRedemptionProposal
 
 Spec == Init /\ [][Next]_vars
 
@@ -190,54 +289,65 @@ Spec == Init /\ [][Next]_vars
 \* Invariants (C26).  They are stated about the result, independently of how the
 \* *Result operators compute it.
 
+\* the assembler-level arguments of the scenario: the scenario itself, or what a proposal
+\* resolves to; "unresolved" if the proposal names something the chains do not have
+Unresolved == [kind |-> "unresolved", main |-> NoMain, items |-> <<>>, fee |-> 0, shape |-> "default"]
+ai == CASE in.kind = "sweepProposal" ->
+               IF \E n \in 1..Len(in.keys) : KeyError(in, n) # "" THEN Unresolved ELSE ResolvedSweep(in)
+        [] in.kind = "redemptionProposal" ->
+               IF \E n \in 1..Len(in.scripts) : ~in.pend[in.scripts[n]].p THEN Unresolved ELSE ResolvedRedemption(in)
+        [] OTHER -> in
+
 Done   == done
 Built  == done /\ res.err = ""
-K      == Len(in.items)
-InVal  == InputsValue(in, res.inputs)
+K      == Len(ai.items)
+InVal  == InputsValue(ai, res.inputs)
 OutVal == OutputsValue(res.outputs)
 
 TypeOK ==
-    /\ in \in Inputs
+    /\ in \in (Inputs \cup ProposalInputs)
     /\ done => /\ res.err \in {"", "noDeposits", "mainInput", "depositScript", "depositInput", "noMain",
-                               "noRequests", "noTargets", "noMoved", "movedLookup", "movedInput"}
+                               "noRequests", "noTargets", "noMoved", "movedLookup", "movedInput",
+                               "fundingConfirmations", "fundingUnconfirmed", "noEvent", "noRequest", "notPending"}
                /\ \A n \in 1..Len(res.inputs) : res.inputs[n] \in 0..K
 
 \* an assembler fails exactly when a documented precondition does not hold
 ErrorsExactlyWhenDocumented ==
     done =>
       (res.err # "" <=>
-         CASE in.kind = "sweep" ->
-                  K = 0 \/ in.main.kind \in BadRef \/ \E n \in 1..K : BadDeposit(in.items[n])
-           [] in.kind = "redemption" ->
-                  K = 0 \/ ~HasMain(in)
-           [] in.kind = "movingFunds" ->
-                  K = 0 \/ ~HasMain(in)
-           [] in.kind = "movedFundsSweep" ->
-                  K = 0 \/ in.items[1].label \in BadRef \/ in.main.kind \in BadRef)
+         CASE ai.kind = "sweep" ->
+                  K = 0 \/ ai.main.kind \in BadRef \/ \E n \in 1..K : BadDeposit(ai.items[n])
+           [] ai.kind = "redemption" ->
+                  K = 0 \/ ~HasMain(ai)
+           [] ai.kind = "movingFunds" ->
+                  K = 0 \/ ~HasMain(ai)
+           [] ai.kind = "unresolved" -> TRUE
+           [] ai.kind = "movedFundsSweep" ->
+                  K = 0 \/ ai.items[1].label \in BadRef \/ ai.main.kind \in BadRef)
 
 \* inputs are exactly the intended UTXOs, each once, in the intended order
 InputsExact ==
     Built =>
-      CASE in.kind = "sweep" ->
-               res.inputs = (IF HasMain(in) THEN <<0>> ELSE <<>>) \o [n \in 1..K |-> n]
-        [] in.kind = "movedFundsSweep" ->
-               res.inputs = <<1>> \o (IF HasMain(in) THEN <<0>> ELSE <<>>)
+      CASE ai.kind = "sweep" ->
+               res.inputs = (IF HasMain(ai) THEN <<0>> ELSE <<>>) \o [n \in 1..K |-> n]
+        [] ai.kind = "movedFundsSweep" ->
+               res.inputs = <<1>> \o (IF HasMain(ai) THEN <<0>> ELSE <<>>)
         [] OTHER -> res.inputs = <<0>>
 
 \* the transaction pays the proposed fee: sum(inputs) - sum(outputs) = fee.  A redemption
 \* whose main UTXO cannot cover the redeemable amounts has no (negative) change output; it
 \* then pays less than the proposed fee (the Bridge rejects such a proposal beforehand).
 Funded ==
-    in.kind = "redemption" =>
-        in.main.value >= Sum([n \in 1..K |-> in.items[n].value - in.items[n].aux])
+    ai.kind = "redemption" =>
+        ai.main.value >= Sum([n \in 1..K |-> ai.items[n].value - ai.items[n].aux])
 FeeConservation ==
-    Built => IF Funded THEN InVal - OutVal = in.fee ELSE InVal - OutVal < in.fee
+    Built => IF Funded THEN InVal - OutVal = ai.fee ELSE InVal - OutVal < ai.fee
 
 \* fee shares add up to the proposed fee; even split, remainder (< k) on the last
 SharesSumToFee ==
-    (Built /\ in.kind = "redemption") =>
+    (Built /\ ai.kind = "redemption") =>
         /\ Len(res.shares) = K
-        /\ Sum(res.shares) = in.fee
+        /\ Sum(res.shares) = ai.fee
         /\ \A n \in 1..K : res.shares[n] >= 0
         /\ \A n \in 1..(K - 1) : res.shares[n] = res.shares[1]
         /\ res.shares[K] - res.shares[1] \in 0..(K - 1)
@@ -247,45 +357,83 @@ IsChange(o) == o.script = "wallet"
 \* only the intended scripts are paid, in the intended order
 ScriptsIntended ==
     Built =>
-      CASE in.kind \in {"sweep", "movedFundsSweep"} ->
+      CASE ai.kind \in {"sweep", "movedFundsSweep"} ->
                /\ Len(res.outputs) = 1
                /\ res.outputs[1].script = "wallet"
-        [] in.kind = "movingFunds" ->
+        [] ai.kind = "movingFunds" ->
                /\ Len(res.outputs) = K
-               /\ \A n \in 1..K : res.outputs[n].script = in.items[n].label
-        [] in.kind = "redemption" ->
+               /\ \A n \in 1..K : res.outputs[n].script = ai.items[n].label
+        [] ai.kind = "redemption" ->
                LET hasChange == Len(res.outputs) = K + 1
-                   off == IF hasChange /\ in.shape # "last" THEN 1 ELSE 0
+                   off == IF hasChange /\ ai.shape # "last" THEN 1 ELSE 0
                IN /\ Len(res.outputs) \in {K, K + 1}
-                  /\ \A n \in 1..K : res.outputs[n + off].script = in.items[n].label
-                  /\ hasChange => IsChange(res.outputs[IF in.shape = "last" THEN K + 1 ELSE 1])
+                  /\ \A n \in 1..K : res.outputs[n + off].script = ai.items[n].label
+                  /\ hasChange => IsChange(res.outputs[IF ai.shape = "last" THEN K + 1 ELSE 1])
 
 \* each redeemer receives amount - treasury fee - its fee share
 RedeemerAmounts ==
-    (Built /\ in.kind = "redemption") =>
-        LET off == IF Len(res.outputs) = K + 1 /\ in.shape # "last" THEN 1 ELSE 0 IN
-        \A n \in 1..K : res.outputs[n + off].value = in.items[n].value - in.items[n].aux - res.shares[n]
+    (Built /\ ai.kind = "redemption") =>
+        LET off == IF Len(res.outputs) = K + 1 /\ ai.shape # "last" THEN 1 ELSE 0 IN
+        \A n \in 1..K : res.outputs[n + off].value = ai.items[n].value - ai.items[n].aux - res.shares[n]
 
 \* a change output exists iff the change is positive (never a zero-value output), and it
 \* returns everything that is left to the wallet
 ChangeIffPositive ==
-    (Built /\ in.kind = "redemption") =>
-        LET change == in.main.value - Sum([n \in 1..K |-> in.items[n].value - in.items[n].aux]) IN
+    (Built /\ ai.kind = "redemption") =>
+        LET change == ai.main.value - Sum([n \in 1..K |-> ai.items[n].value - ai.items[n].aux]) IN
         /\ (Len(res.outputs) = K + 1) <=> (change > 0)
-        /\ (change > 0) => res.outputs[IF in.shape = "last" THEN K + 1 ELSE 1].value = change
+        /\ (change > 0) => res.outputs[IF ai.shape = "last" THEN K + 1 ELSE 1].value = change
 
 \* moving funds: even split with the remainder (< k) on the last target
 EvenSplit ==
-    (Built /\ in.kind = "movingFunds") =>
+    (Built /\ ai.kind = "movingFunds") =>
         /\ \A n \in 1..(K - 1) : res.outputs[n].value = res.outputs[1].value
-        /\ (in.main.value >= in.fee) =>
+        /\ (ai.main.value >= ai.fee) =>
                /\ res.outputs[K].value - res.outputs[1].value \in 0..(K - 1)
                /\ \A n \in 1..K : res.outputs[n].value >= 0
 
 \* sweeps: everything but the fee goes back to the wallet
 SweepKeepsFunds ==
-    (Built /\ in.kind \in {"sweep", "movedFundsSweep"}) =>
+    (Built /\ ai.kind \in {"sweep", "movedFundsSweep"}) =>
         res.outputs[1].value =
-            (IF HasMain(in) THEN in.main.value ELSE 0)
-            + Sum([n \in 1..K |-> in.items[n].value]) - in.fee
+            (IF HasMain(ai) THEN ai.main.value ELSE 0)
+            + Sum([n \in 1..K |-> ai.items[n].value]) - ai.fee
+
+\* ---- proposal resolution
+\* a deposit sweep built from a proposal spends exactly the UTXOs named by the proposal's
+\* keys, one input per key, in key order (plus the main UTXO first, if any): input n is
+\* the output keys[n] of its funding transaction, with that output's amount -- also when
+\* several keys share a funding transaction or a reveal block
+SweepSpendsNamedUtxos ==
+    (Built /\ in.kind = "sweepProposal") =>
+        LET deps == SelectSeq(res.inputs, LAMBDA r : r # 0) IN
+        /\ deps = [n \in 1..Len(in.keys) |-> n]
+        /\ \A n \in 1..Len(in.keys) : ai.items[n].value = PropValue(in.keys[n])
+        /\ Cardinality({ in.keys[n] : n \in 1..Len(in.keys) }) = Len(deps)      \* no UTXO twice
+        /\ res.outputs[1].value = (IF HasMain(in) THEN in.main.value ELSE 0)
+                                  + Sum([n \in 1..Len(in.keys) |-> PropValue(in.keys[n])]) - in.fee
+
+\* a proposal is executed only if every key names a deposit revealed for this wallet in the
+\* claimed block, with a deposit request, in a known and confirmed funding transaction
+SweepProposalErrors ==
+    (done /\ in.kind = "sweepProposal") =>
+        (res.err = "" <=>
+            \A n \in 1..Len(in.keys) :
+                /\ in.txs[in.keys[n][1]] = "ok"
+                /\ in.dep[in.keys[n]] \in {"b1", "b2"}
+                /\ in.wrongAt # n)
+
+\* a redemption built from a proposal pays script n of the proposal the amount of THIS
+\* wallet's pending request for that script (minus treasury fee and fee share)
+RedemptionPaysNamedRequests ==
+    (Built /\ in.kind = "redemptionProposal") =>
+        LET k == Len(in.scripts)
+            off == IF Len(res.outputs) = k + 1 /\ in.shape # "last" THEN 1 ELSE 0
+        IN \A n \in 1..k :
+              /\ res.outputs[n + off].script = in.scripts[n]
+              /\ res.outputs[n + off].value =
+                     in.pend[in.scripts[n]].amount - in.pend[in.scripts[n]].treasury - res.shares[n]
+RedemptionProposalErrors ==
+    (done /\ in.kind = "redemptionProposal") =>
+        (res.err = "" <=> \A n \in 1..Len(in.scripts) : in.pend[in.scripts[n]].p)
 =============================================================================
